@@ -1,4 +1,6 @@
 import ComposeVerif.Model.Include
+import ComposeVerif.Model.IncludeResolve
+import ComposeVerif.Lemmas.Include
 /-!
 # C06 — statements the tree falsified or still falsifies (concrete witnesses, `by decide`)
 
@@ -121,5 +123,40 @@ theorem include_anchor_is_projDir_full_refuted :
       (by decide +kernel) (by decide) hpl with hj | ⟨ha, _⟩
   · exact hne hj
   · rw [ha] at hrel; cases hrel
+
+/-! ## still open: a config of an included file whose source variable only the included project's environment defines
+
+Since a87ef4e the branch of `loadYamlModel` for an included model runs the services and the secrets resolver, not the
+configs one; the including model resolves the imported config with its own environment.  `mod/.env` defines `MC`,
+the parent does not: loaded on its own the config carries `from-mod`, through include nothing.  Replayed from
+`corpus/C06/included-config-environment.json` (finding `config-environment:differs:configs.*.#content`). -/
+
+def envParent : Env := []
+def envIncluded : Env := envMerge envParent [("MC", "from-mod")]
+def modModel : KVs := [("configs", .map [("cfg", .map [("environment", .str "MC")])]),
+                       ("secrets", .map [("sec", .map [("environment", .str "MC")])])]
+
+/-- on its own both carry the value; as an included model only the secret does; the including model's own resolution
+(`resolveModelEnv false envParent`) adds nothing -/
+theorem included_config_witness :
+    veq (.map (resolveModelEnv false envIncluded modModel))
+      (.map [("configs", .map [("cfg", .map [("environment", .str "MC"), ("content", .str "from-mod")])]),
+             ("secrets", .map [("sec", .map [("environment", .str "MC"), ("x-#value", .str "from-mod")])])]) = true ∧
+    veq (.map (resolveModelEnv false envParent (resolveModelEnv true envIncluded modModel)))
+      (.map [("configs", .map [("cfg", .map [("environment", .str "MC")])]),
+             ("secrets", .map [("sec", .map [("environment", .str "MC"), ("x-#value", .str "from-mod")])])]) = true := by
+  decide +kernel
+
+/-- the full-strength statement for configs (`IncludedConfigEqPaste`, `Props/C06Resolve.lean`) — resolved by the
+including model = as loaded on its own, for every environment the include's extends — is false -/
+theorem included_config_eq_paste_refuted :
+    ¬ (∀ (envI envP : Env) (c : Val), (∀ k v, Env.get envP k = some v → Env.get envI k = some v) →
+        resolveSource "content" envP c = resolveSource "content" envI c) := by
+  intro h
+  have e := h envIncluded envParent (.map [("environment", .str "MC")]) (by intro k v hk; cases hk)
+  have d : veq (resolveSource "content" envParent (.map [("environment", .str "MC")]))
+      (resolveSource "content" envIncluded (.map [("environment", .str "MC")])) = false := by decide +kernel
+  rw [e, veq_refl] at d
+  cases d
 
 end CV.Include.Neg
